@@ -469,6 +469,9 @@ class Gen:
         if self.chance(0.45):
             media = self.pick(["screen", "paren", "screen-and-paren", "all", "all-and-paren", "not-all", "only-screen-and-paren", "list", "paren-and-paren"])
         x = {"t": "import", "form": form, "path": path, "conds": conds, "media": media}
+        if self.chance(0.12):
+            # function names are ASCII case-insensitive
+            x["fn_spelling"] = {"layer": self.pick(["LAYER", "Layer"]), "supports": self.pick(["SUPPORTS", "Supports"])}
         q = self.r.random()
         if q < 0.06:
             x["kw_spelling"] = "IMPORT"
